@@ -122,6 +122,7 @@ class Engine(object):
         self._nonneg = {}
         self._bvstate = None
         self._nl_defs = []
+        self.uf_apps = []
         if self.mode == 'symbolic':
             self.solver.reset()
             self._limit(self.solver, self.timeout_ms)
@@ -545,6 +546,23 @@ class Engine(object):
             return bytearray(cells) if kind != 'bytes' else bytes(cells)
         return SBuf(cells, kind)
 
+    def pred(self, name, *args):
+        """Uninterpreted predicate over integers (an arbitrary but fixed set/relation)."""
+        if self.mode != 'symbolic':
+            key = '%s(%s)' % (name, ','.join(str(int(a)) for a in args))
+            if key not in self.input_vars:
+                if self.sampler is not None:
+                    v = bool(self.sampler.draw_int(key, 0, 1))
+                else:
+                    v = bool((self.inputs or {}).get(key, False))
+                self.input_vars[key] = v
+            return self.input_vars[key]
+        ts = [a.t if isinstance(a, SInt) else z3.IntVal(int(a)) for a in args]
+        f = z3.Function(name, *([z3.IntSort()] * len(ts) + [z3.BoolSort()]))
+        app = f(*ts)
+        self.uf_apps.append((name, ts, app))
+        return SBool(app)
+
     def choice(self, name, options):
         """One of a finite list of concrete options (forks)."""
         i = self.int(name, 0, len(options) - 1)
@@ -708,6 +726,11 @@ class Engine(object):
                 out[k] = v.as_long()
             else:
                 out[k] = z3.is_true(v)
+        for name, ts, app in self.uf_apps:
+            vals = [m.eval(t, model_completion=True) for t in ts]
+            if all(z3.is_int_value(v) for v in vals):
+                key = '%s(%s)' % (name, ','.join(str(v.as_long()) for v in vals))
+                out[key] = z3.is_true(m.eval(app, model_completion=True))
         return out
 
     def _fresh_check(self, neg):
